@@ -22,6 +22,7 @@ type seed struct {
 }
 
 var seeds = []seed{
+	{"WriteDenseTo converts the chunk base to int before shifting", "U8", "roaring.go", "\t\t\tcopy(bitmap[int(hb>>log2WordSize):], c.bitmap)\n", "\t\t\tcopy(bitmap[int(hb)>>log2WordSize:], c.bitmap)\n", "WriteDenseTo|chunk base converted to int"},
 	{"roaringArray64.equals compares the receiver's keys with themselves", "EQ1", "roaring64/roaringarray64.go", "\t\tfor i, k := range ra.keys {\n\t\t\tif k != srb.keys[i] {", "\t\tkeys := ra.keys\n\t\tfor i, k := range ra.keys {\n\t\t\tif k != keys[i] {", "roaringArray64).equals"},
 	{"TransposeWithCounts hands found-set and filter-set over crossed", "SW1", "roaring64/bsi64.go", "parallelExecutorBSIResults(parallelism, b, transposeWithCounts, foundSet, filterSet, true)", "parallelExecutorBSIResults(parallelism, b, transposeWithCounts, filterSet, foundSet, true)", "TransposeWithCounts|call of parallelExecutorBSIResults"},
 	{"the reusable 32-bit unset iterator is not rewound", "R2", "roaring.go", "\tiui.end = end\n\tiui.containerIndex = 0\n", "\tiui.end = end\n", "unsetIterator).Initialize|rewinds containerIndex"},
